@@ -240,8 +240,8 @@ theorem joinTwoVertices_staleMapper_witness :
    * `generateMesh m ne true` (the whole loop of generate_mesh with replace_short_edges): consistency of the final mesh.
      `joinTwoVertices_consistent` covers one call; for the loop one needs `joinable` for every pair *in the mesh
      produced by the previous calls*, which `joinTwoVertices_chain_witness` shows is not inherited (finding D17).
-   * `generateMesh m ne false`: only clause (1) is proved (`generateMesh_ownEdgesOk` in Props/C09.lean); clauses (2)–(5)
-     after the vertex removal and edge rebuild are evaluated per run by the driver.
+   * `generateMesh m ne false`: now proved in Props/C11mesh.lean (`generateMesh_false_five_clauses` for every `ne`,
+     `generateMesh_false_consistent` under `1 ≤ ne`, `cellsAnchored`, `picksAgree`).
    * the skeleton clean-up operations (inner-triangle removal, T3 transition, isolated-cell removal).
 -/
 
